@@ -183,7 +183,21 @@ import rules.c02 as _c02
 import rules.c07 as _c07
 # reduction: C01 holds if C02 (every schedule is a linear extension of the same order, no block lost), C07 (edge
 # atomicity incl. flip coverage) hold and the simulators are assembled alike -> re-run all of their rules here
-RULES = [rule_agree] + list(_c02.RULES) + list(_c07.RULES)
+def rule_two_writers_rejected(repo):
+    """two unordered writers of the same storage make the result depend on the tie-break: the multi-writer check must look at
+    the written object, every signal ancestor and every overlapping sibling slice.  Shared with C09 (R-C09-mw-cover)."""
+    from rules.c09 import rule_mw_cover
+    return rule_mw_cover(repo)
+
+
+def rule_net_blocks_drive_their_readers(repo):
+    """a generated net block that is written against the wrong common ancestor drives another component's signal (a second,
+    unordered driver) and never updates the real reader.  Shared with C08 (R-C08-netblock)."""
+    from rules.c08 import rule_netblock
+    return rule_netblock(repo)
+
+
+RULES = [rule_agree] + list(_c02.RULES) + list(_c07.RULES) + [rule_two_writers_rejected, rule_net_blocks_drive_their_readers]
 
 
 def _m(name, file, old, new, rule=None, count=1):
